@@ -139,7 +139,8 @@ _ERR_CLASSES = {}
 def RandErr(seed, profile, dim, a=None, b=None):
     """Seeded ErrorCalculator: the refinement decisions of the real refine() loop are driven by these values."""
     if "RandErr" not in _ERR_CLASSES:
-        from sparseSpACE.ErrorCalculator import ErrorCalculator, ErrorCalculatorSingleDimVolumeGuided
+        from sparseSpACE.ErrorCalculator import (ErrorCalculator, ErrorCalculatorSingleDimVolumeGuided,
+                                                 ErrorCalculatorSingleDimVolumeGuidedPunishedDepth)
 
         class _RandErr(ErrorCalculator):
             def __init__(self, seed, profile, dim, a, b):
@@ -152,6 +153,7 @@ def RandErr(seed, profile, dim, a=None, b=None):
                 self.calls = 0
                 self.a, self.b = a, b
                 self.real = ErrorCalculatorSingleDimVolumeGuided()
+                self.real_punished = ErrorCalculatorSingleDimVolumeGuidedPunishedDepth()
                 r = random.Random(seed ^ 0x5bd1e995)
                 self.hot = [r.random() for _ in range(dim)]
                 self.hot_dims = [k for k in range(dim) if r.random() < 0.7] or [r.randrange(dim)]
@@ -204,6 +206,10 @@ def RandErr(seed, profile, dim, a=None, b=None):
                     if getattr(refine_object, "volume", None) is None:
                         return 0.0
                     return self.real.calc_error(refine_object, norm, volume_weights=volume_weights)
+                if p == "real_punished":   # the library's depth-punishing variant of the volume-guided estimator
+                    if getattr(refine_object, "volume", None) is None:
+                        return 0.0
+                    return self.real_punished.calc_error(refine_object, norm)
                 raise ValueError(p)
 
         _ERR_CLASSES["RandErr"] = _RandErr
